@@ -363,6 +363,445 @@ func c01BreakerCalls(s *source, e *emitter, rel, goName, lean string) {
 	e.stringList(lean, "breaker calls of `"+goName+"` in "+rel, out)
 }
 
+
+// ---- error predicates -> Lean Bool functions over an abstract error -------------------------------------------
+//
+// A Go predicate over an error (`func(err error) bool`, possibly a closure) is translated into
+//   def <name> (isNil : Bool) (is as call nilv bv code : String → Bool) : Bool
+// where isNil = `err == nil`, is "S" = `errors.Is(err, S)` (errorx.In is the disjunction), as "T" = `errors.As(err, &e)`
+// with `var e T`, call "f" = `f(err)` for any other predicate applied to the error, nilv "x" = `x == nil` for a non-error
+// operand, bv "v" = the bool variable v, code "C" = `status.Code(err) == C` (switch on status.Code(err)).
+// Tie.lean instantiates the parameters with the model's semantics of the error classes and proves the result equal to
+// the model's predicate for ALL errors.
+
+const c01PredParams = "(isNil : Bool) (is as call nilv bv code : String → Bool)"
+
+type c01Pred struct {
+	s      *source
+	errVar map[string]bool
+	asType map[string]string
+}
+
+func (c *c01Pred) isErr(e ast.Expr) bool {
+	id, ok := e.(*ast.Ident)
+	return ok && c.errVar[id.Name]
+}
+
+func (c *c01Pred) expr(e ast.Expr) string {
+	switch x := e.(type) {
+	case *ast.ParenExpr:
+		return c.expr(x.X)
+	case *ast.Ident:
+		if x.Name == "true" || x.Name == "false" {
+			return x.Name
+		}
+		return fmt.Sprintf("bv %q", x.Name)
+	case *ast.UnaryExpr:
+		if x.Op == token.NOT {
+			return "(!" + c.expr(x.X) + ")"
+		}
+	case *ast.BinaryExpr:
+		switch x.Op {
+		case token.LAND:
+			return "(" + c.expr(x.X) + " && " + c.expr(x.Y) + ")"
+		case token.LOR:
+			return "(" + c.expr(x.X) + " || " + c.expr(x.Y) + ")"
+		case token.EQL, token.NEQ:
+			if id, ok := x.Y.(*ast.Ident); ok && id.Name == "nil" {
+				v := "isNil"
+				if !c.isErr(x.X) {
+					v = fmt.Sprintf("nilv %q", c.s.src(x.X))
+				}
+				if x.Op == token.NEQ {
+					v = "(!" + v + ")"
+				}
+				return v
+			}
+		}
+	case *ast.CallExpr:
+		fn := c.s.src(x.Fun)
+		switch {
+		case fn == "errors.Is" && len(x.Args) == 2 && c.isErr(x.Args[0]):
+			return fmt.Sprintf("is %q", c.s.src(x.Args[1]))
+		case fn == "errorx.In" && len(x.Args) >= 2 && c.isErr(x.Args[0]):
+			var parts []string
+			for _, a := range x.Args[1:] {
+				parts = append(parts, fmt.Sprintf("is %q", c.s.src(a)))
+			}
+			return "(" + strings.Join(parts, " || ") + ")"
+		case fn == "errors.As" && len(x.Args) == 2 && c.isErr(x.Args[0]):
+			if u, ok := x.Args[1].(*ast.UnaryExpr); ok && u.Op == token.AND {
+				if id, ok := u.X.(*ast.Ident); ok && c.asType[id.Name] != "" {
+					return fmt.Sprintf("as %q", c.asType[id.Name])
+				}
+			}
+		case len(x.Args) == 1 && c.isErr(x.Args[0]):
+			return fmt.Sprintf("call %q", fn)
+		}
+	}
+	failf("predicate: unsupported expression %s", c.s.src(e))
+	return ""
+}
+
+func (c *c01Pred) stmts(list []ast.Stmt) string {
+	if len(list) == 0 {
+		failf("predicate: control falls off the end")
+	}
+	switch x := list[0].(type) {
+	case *ast.ReturnStmt:
+		if len(x.Results) == 1 {
+			return c.expr(x.Results[0])
+		}
+	case *ast.DeclStmt:
+		if gd, ok := x.Decl.(*ast.GenDecl); ok && gd.Tok == token.VAR {
+			for _, sp := range gd.Specs {
+				vs := sp.(*ast.ValueSpec)
+				if vs.Type != nil && len(vs.Values) == 0 {
+					for _, n := range vs.Names {
+						c.asType[n.Name] = c.s.src(vs.Type)
+					}
+				}
+			}
+			return c.stmts(list[1:])
+		}
+	case *ast.IfStmt:
+		if x.Init == nil {
+			cond := c.expr(x.Cond)
+			then := c.stmts(x.Body.List)
+			var els string
+			if x.Else != nil {
+				blk, ok := x.Else.(*ast.BlockStmt)
+				if !ok {
+					failf("predicate: else-if not supported")
+				}
+				els = c.stmts(blk.List)
+			} else {
+				els = c.stmts(list[1:])
+			}
+			return "(if " + cond + " then " + then + " else " + els + ")"
+		}
+	case *ast.SwitchStmt:
+		if x.Init == nil && x.Tag != nil {
+			call, ok := x.Tag.(*ast.CallExpr)
+			if ok && c.s.src(call.Fun) == "status.Code" && len(call.Args) == 1 && c.isErr(call.Args[0]) {
+				def := ""
+				type arm struct{ cond, body string }
+				var arms []arm
+				for _, st := range x.Body.List {
+					cc := st.(*ast.CaseClause)
+					body := c.stmts(cc.Body)
+					if cc.List == nil {
+						def = body
+						continue
+					}
+					var parts []string
+					for _, v := range cc.List {
+						parts = append(parts, fmt.Sprintf("code %q", c.s.src(v)))
+					}
+					arms = append(arms, arm{"(" + strings.Join(parts, " || ") + ")", body})
+				}
+				if def == "" {
+					def = c.stmts(list[1:])
+				}
+				out := def
+				for i := len(arms) - 1; i >= 0; i-- {
+					out = "(if " + arms[i].cond + " then " + arms[i].body + " else " + out + ")"
+				}
+				return out
+			}
+		}
+	}
+	failf("predicate: unsupported statement %s", c.s.src(list[0]))
+	return ""
+}
+
+// assigned: the final value of the bool variable v after a statement list (`v = x`, `if c { v = x }`; definitions
+// `e := f(…)` introduce e as the error under test; everything else must not mention v).
+func (c *c01Pred) assigned(list []ast.Stmt, v, cur string) string {
+	for _, st := range list {
+		switch x := st.(type) {
+		case *ast.AssignStmt:
+			if len(x.Lhs) == 1 && len(x.Rhs) == 1 {
+				if id, ok := x.Lhs[0].(*ast.Ident); ok {
+					if id.Name == v {
+						if x.Tok != token.ASSIGN {
+							failf("assignment: unsupported operator on %s", v)
+						}
+						cur = c.expr(x.Rhs[0])
+						continue
+					}
+					if x.Tok == token.DEFINE {
+						c.errVar[id.Name] = true
+						continue
+					}
+				}
+			}
+			if strings.Contains(c.s.src(x), v) {
+				failf("assignment: unsupported statement %s", c.s.src(x))
+			}
+		case *ast.IfStmt:
+			if x.Init != nil {
+				failf("assignment: if with init")
+			}
+			then := c.assigned(x.Body.List, v, cur)
+			els := cur
+			if x.Else != nil {
+				blk, ok := x.Else.(*ast.BlockStmt)
+				if !ok {
+					failf("assignment: else-if not supported")
+				}
+				els = c.assigned(blk.List, v, cur)
+			}
+			if then != cur || els != cur {
+				cur = "(if " + c.expr(x.Cond) + " then " + then + " else " + els + ")"
+			}
+		case *ast.ReturnStmt:
+			return cur
+		default:
+			if strings.Contains(c.s.src(st), v) {
+				failf("assignment: unsupported statement %s", c.s.src(st))
+			}
+		}
+	}
+	return cur
+}
+
+func c01EmitPred(e *emitter, lean, doc string, body func() string) {
+	defer func() {
+		if p := recover(); p != nil {
+			if te, ok := p.(transErr); ok {
+				e.errors = append(e.errors, lean+": "+te.msg)
+				e.printf("/-- TRANSLATION FAILED: %s -/\ndef %s %s : Bool := false\n\n", te.msg, lean, c01PredParams)
+				return
+			}
+			panic(p)
+		}
+	}()
+	b := body()
+	e.printf("/-- %s -/\ndef %s %s : Bool :=\n  %s\n\n", doc, lean, c01PredParams, b)
+}
+
+func c01ErrParams(ft *ast.FuncType) map[string]bool {
+	out := map[string]bool{}
+	if ft.Params != nil {
+		for _, f := range ft.Params.List {
+			if id, ok := f.Type.(*ast.Ident); ok && id.Name == "error" {
+				for _, n := range f.Names {
+					out[n.Name] = true
+				}
+			}
+		}
+	}
+	return out
+}
+
+// c01PredFunc translates a named predicate function.
+func c01PredFunc(s *source, e *emitter, rel, goName, lean string) {
+	fd := s.findFunc(rel, goName)
+	c01EmitPred(e, lean, "`"+goName+"` in "+rel+" as a predicate over an abstract error", func() string {
+		if fd == nil {
+			failf("function %s not found in %s", goName, rel)
+		}
+		c := &c01Pred{s: s, errVar: c01ErrParams(fd.Type), asType: map[string]string{}}
+		return c.stmts(fd.Body.List)
+	})
+}
+
+// c01BreakerArgPred translates the predicate closure handed (as last argument) to the n-th `….brk.<Method>(…)` call
+// of a function.
+func c01BreakerArgPred(s *source, e *emitter, rel, goName, lean string) {
+	fd := s.findFunc(rel, goName)
+	c01EmitPred(e, lean, "the acceptability closure `"+goName+"` hands to its breaker, in "+rel, func() string {
+		if fd == nil {
+			failf("function %s not found in %s", goName, rel)
+		}
+		var lit *ast.FuncLit
+		n := 0
+		ast.Inspect(fd.Body, func(nd ast.Node) bool {
+			if c, ok := nd.(*ast.CallExpr); ok && strings.Contains(s.src(c.Fun), "brk.") && len(c.Args) > 0 {
+				n++
+				if l, ok := c.Args[len(c.Args)-1].(*ast.FuncLit); ok && lit == nil {
+					lit = l
+				}
+			}
+			return true
+		})
+		if n != 1 || lit == nil {
+			failf("%s: expected exactly one breaker call with a closure as last argument (found %d calls)", goName, n)
+		}
+		c := &c01Pred{s: s, errVar: c01ErrParams(lit.Type), asType: map[string]string{}}
+		return c.stmts(lit.Body.List)
+	})
+}
+
+// c01AssignedIn translates, for the innermost closure of a function that assigns the bool variable v, the final value
+// of v after one run of that closure (bv "v" = its value before).  Also fails if v is assigned anywhere else.
+func c01AssignedIn(s *source, e *emitter, rel, goName, v, lean string) {
+	fd := s.findFunc(rel, goName)
+	c01EmitPred(e, lean, "value of `"+v+"` after the closure of `"+goName+"` ("+rel+") that assigns it has run once", func() string {
+		if fd == nil {
+			failf("function %s not found in %s", goName, rel)
+		}
+		var lits []*ast.FuncLit
+		total := 0
+		var walk func(n ast.Node, stack []*ast.FuncLit)
+		walk = func(n ast.Node, stack []*ast.FuncLit) {
+			ast.Inspect(n, func(nd ast.Node) bool {
+				switch x := nd.(type) {
+				case *ast.FuncLit:
+					if nd != n {
+						walk(x.Body, append(append([]*ast.FuncLit{}, stack...), x))
+						return false
+					}
+				case *ast.AssignStmt:
+					for _, l := range x.Lhs {
+						if id, ok := l.(*ast.Ident); ok && id.Name == v {
+							total++
+							if len(stack) == 0 {
+								failf("%s assigned outside a closure", v)
+							}
+							top := stack[len(stack)-1]
+							if len(lits) == 0 || lits[len(lits)-1] != top {
+								lits = append(lits, top)
+							}
+						}
+					}
+				}
+				return true
+			})
+		}
+		walk(fd.Body, nil)
+		if len(lits) != 1 {
+			failf("%s: expected exactly one closure assigning %s, found %d (%d assignments)", goName, v, len(lits), total)
+		}
+		c := &c01Pred{s: s, errVar: c01ErrParams(lits[0].Type), asType: map[string]string{}}
+		return c.assigned(lits[0].Body.List, v, fmt.Sprintf("bv %q", v))
+	})
+}
+
+// c01VarDecls lists the `var x T` declarations (without value) directly in a function body.
+func c01VarDecls(s *source, e *emitter, rel, goName, lean string) {
+	fd := s.findFunc(rel, goName)
+	var out []string
+	if fd == nil {
+		e.errors = append(e.errors, fmt.Sprintf("function %s not found in %s", goName, rel))
+	} else {
+		for _, st := range fd.Body.List {
+			if ds, ok := st.(*ast.DeclStmt); ok {
+				out = append(out, s.src(ds))
+			}
+		}
+	}
+	e.stringList(lean, "var declarations at the top level of `"+goName+"` in "+rel, out)
+}
+
+// ---- comparisons -> Lean Bool functions over numbers ----------------------------------------------------------
+
+// c01Cmp translates a condition built from comparisons, &&, ||, ! whose operands are listed in env (Go source text ->
+// Lean parameter), constants (consts: Go name -> Lean name) and integer literals.
+func c01Cmp(s *source, x ast.Expr, env, consts map[string]string, used map[string]bool) string {
+	var operand func(o ast.Expr) string
+	operand = func(o ast.Expr) string {
+		if p, ok := o.(*ast.ParenExpr); ok {
+			return operand(p.X)
+		}
+		src := s.src(o)
+		if v, ok := env[src]; ok {
+			used[src] = true
+			return v
+		}
+		if v, ok := consts[src]; ok {
+			return v
+		}
+		if bl, ok := o.(*ast.BasicLit); ok && bl.Kind == token.INT {
+			return bl.Value
+		}
+		failf("comparison: unknown operand %s", src)
+		return ""
+	}
+	switch b := x.(type) {
+	case *ast.ParenExpr:
+		return c01Cmp(s, b.X, env, consts, used)
+	case *ast.UnaryExpr:
+		if b.Op == token.NOT {
+			return "(!" + c01Cmp(s, b.X, env, consts, used) + ")"
+		}
+	case *ast.BinaryExpr:
+		switch b.Op {
+		case token.LAND:
+			return "(" + c01Cmp(s, b.X, env, consts, used) + " && " + c01Cmp(s, b.Y, env, consts, used) + ")"
+		case token.LOR:
+			return "(" + c01Cmp(s, b.X, env, consts, used) + " || " + c01Cmp(s, b.Y, env, consts, used) + ")"
+		case token.LSS, token.LEQ, token.GTR, token.GEQ, token.EQL, token.NEQ:
+			op := map[token.Token]string{token.LSS: "<", token.LEQ: "≤", token.GTR: ">", token.GEQ: "≥", token.EQL: "=", token.NEQ: "≠"}[b.Op]
+			return "decide (" + operand(b.X) + " " + op + " " + operand(b.Y) + ")"
+		}
+	}
+	failf("comparison: unsupported condition %s", s.src(x))
+	return ""
+}
+
+func c01EmitCmp(s *source, e *emitter, lean, doc, params string, x ast.Expr, env, consts map[string]string) {
+	defer func() {
+		if p := recover(); p != nil {
+			if te, ok := p.(transErr); ok {
+				e.errors = append(e.errors, lean+": "+te.msg)
+				e.printf("/-- TRANSLATION FAILED: %s -/\ndef %s %s : Bool := false\n\n", te.msg, lean, params)
+				return
+			}
+			panic(p)
+		}
+	}()
+	if x == nil {
+		failf("condition not found")
+	}
+	used := map[string]bool{}
+	b := c01Cmp(s, x, env, consts, used)
+	for k := range env {
+		if !used[k] {
+			failf("operand %s does not occur in %s", k, s.src(x))
+		}
+	}
+	e.printf("/-- %s: `%s` -/\ndef %s %s : Bool :=\n  %s\n\n", doc, s.src(x), lean, params, b)
+}
+
+// c01IfConds returns the conditions of all if statements of a function, in source order.
+func c01IfConds(s *source, rel, goName string) []ast.Expr {
+	fd := s.findFunc(rel, goName)
+	var out []ast.Expr
+	if fd != nil {
+		ast.Inspect(fd.Body, func(n ast.Node) bool {
+			if x, ok := n.(*ast.IfStmt); ok {
+				out = append(out, x.Cond)
+			}
+			return true
+		})
+	}
+	return out
+}
+
+// c01CompositeFields lists `field: value` of the first composite literal of the named type inside a function.
+func c01CompositeFields(s *source, e *emitter, rel, goName, typ, lean string) {
+	fd := s.findFunc(rel, goName)
+	var out []string
+	found := false
+	if fd != nil {
+		ast.Inspect(fd.Body, func(n ast.Node) bool {
+			if cl, ok := n.(*ast.CompositeLit); ok && !found && cl.Type != nil && s.src(cl.Type) == typ {
+				found = true
+				for _, el := range cl.Elts {
+					out = append(out, s.src(el))
+				}
+			}
+			return true
+		})
+	}
+	if !found {
+		e.errors = append(e.errors, fmt.Sprintf("composite literal %s not found in %s of %s", typ, goName, rel))
+	}
+	e.stringList(lean, "fields of the `"+typ+"` literal in `"+goName+"` ("+rel+")", out)
+}
+
 func c01Reducer(t *translator, s *source, e *emitter, rel string) {
 	fd := s.findFunc(rel, "googleBreaker.history")
 	var lit *ast.FuncLit
@@ -480,6 +919,91 @@ func init() {
 			c01BreakerCalls(s, e, sq, "commonSqlConn."+fn, "sqlx"+strings.ToUpper(fn[:1])+fn[1:]+"Breaker")
 		}
 		c01Stmts(s, e, "core/stores/sqlx/orm.go", "isScanFailed", "sqlxIsScanFailedStmts")
+
+		// ---- semantic part of the call sites: predicates and decision-making conditions as Lean functions
+		c01PredFunc(s, e, br, "defaultAcceptable", "predDefaultAcceptable")
+		c01PredFunc(s, e, "zrpc/internal/codes/accept.go", "Acceptable", "predCodesAcceptable")
+		c01PredFunc(s, e, zs, "serverSideAcceptable", "predServerSideAcceptable")
+		c01PredFunc(s, e, "core/stores/redis/redis.go", "acceptable", "predRedisAcceptable")
+		c01PredFunc(s, e, sq, "commonSqlConn.acceptable", "predDbAcceptable")
+		c01PredFunc(s, e, "core/stores/sqlx/orm.go", "isScanFailed", "predIsScanFailed")
+		c01BreakerArgPred(s, e, sq, "commonSqlConn.queryRows", "predQueryRows")
+		c01AssignedIn(s, e, sq, "commonSqlConn.queryRows", "scanFailed", "assignQueryRowsScanFailed")
+		c01VarDecls(s, e, sq, "commonSqlConn.queryRows", "sqlxQueryRowsVars")
+		const st = "core/stores/sqlx/stmt.go"
+		c01BreakerArgPred(s, e, st, "statement.queryRows", "predStmtQueryRows")
+		c01AssignedIn(s, e, st, "statement.queryRows", "scanFailed", "assignStmtQueryRowsScanFailed")
+		c01VarDecls(s, e, st, "statement.queryRows", "sqlxStmtQueryRowsVars")
+		c01BreakerArgPred(s, e, st, "statement.ExecCtx", "predStmtExec")
+		c01BreakerCalls(s, e, st, "statement.ExecCtx", "sqlxStmtExecBreaker")
+		c01BreakerCalls(s, e, st, "statement.queryRows", "sqlxStmtQueryRowsBreaker")
+		c01CompositeFields(s, e, sq, "commonSqlConn.PrepareCtx", "statement", "sqlxPrepareStatementFields")
+		c01Stmts(s, e, sq, "WithAcceptable", "sqlxWithAcceptableStmts")
+		c01Stmts(s, e, sq, "NewSqlConn", "sqlxNewSqlConnStmts")
+		c01Stmts(s, e, sq, "NewSqlConnFromDB", "sqlxNewSqlConnFromDBStmts")
+		// WithAcceptable: the chained closure `pre(err) || acceptable(err)`
+		c01EmitPred(e, "predWithAcceptableChain", "the chained predicate of `WithAcceptable` in "+sq, func() string {
+			fd := s.findFunc(sq, "WithAcceptable")
+			if fd == nil {
+				failf("WithAcceptable not found")
+			}
+			var lit *ast.FuncLit
+			ast.Inspect(fd.Body, func(n ast.Node) bool {
+				if l, ok := n.(*ast.FuncLit); ok && len(c01ErrParams(l.Type)) > 0 {
+					lit = l
+				}
+				return true
+			})
+			if lit == nil {
+				failf("WithAcceptable: chained closure not found")
+			}
+			c := &c01Pred{s: s, errVar: c01ErrParams(lit.Type), asType: map[string]string{}}
+			return c.stmts(lit.Body.List)
+		})
+		// rest: the deferred decision `cw.Code < http.StatusInternalServerError`
+		{
+			conds := c01IfConds(s, rh, "BreakerHandler")
+			var x ast.Expr
+			if len(conds) == 2 {
+				x = conds[1]
+			}
+			c01EmitCmp(s, e, "restAcceptCond", "BreakerHandler: Accept iff", "(code statusInternalServerError : Int)", x,
+				map[string]string{"cw.Code": "code", "http.StatusInternalServerError": "statusInternalServerError"}, nil)
+		}
+		// accept(): its three decisions, and TrueOnProba's comparison
+		{
+			conds := c01IfConds(s, gb, "googleBreaker.accept")
+			var c0, c1 ast.Expr
+			if len(conds) == 3 {
+				c0, c1 = conds[0], conds[1]
+			}
+			c01EmitCmp(s, e, "acceptCondFree", "accept(): free pass iff", "(dropRatio : Rat)", c0,
+				map[string]string{"dropRatio": "dropRatio"}, nil)
+			c01EmitCmp(s, e, "acceptCondForced", "accept(): forced probe iff", "(lastPass since : Int)", c1,
+				map[string]string{"lastPass": "lastPass", "timex.Since(lastPass)": "since"},
+				map[string]string{"forcePassDuration": "forcePassDuration"})
+			var tp ast.Expr
+			if fd := s.findFunc(pr, "Proba.TrueOnProba"); fd != nil {
+				ast.Inspect(fd.Body, func(n ast.Node) bool {
+					if a, ok := n.(*ast.AssignStmt); ok && len(a.Lhs) == 1 && s.src(a.Lhs[0]) == "truth" && len(a.Rhs) == 1 {
+						tp = a.Rhs[0]
+					}
+					return true
+				})
+			}
+			c01EmitCmp(s, e, "trueOnProbaCond", "TrueOnProba: truth =", "(draw proba : Rat)", tp,
+				map[string]string{"p.r.Float64()": "draw", "proba": "proba"}, nil)
+		}
+		// rolling window: span()'s range check and updateOffset's early return
+		{
+			conds := c01IfConds(s, rw, "RollingWindow.updateOffset")
+			var x ast.Expr
+			if len(conds) >= 1 {
+				x = conds[0]
+			}
+			c01EmitCmp(s, e, "rwUpdateOffsetSkip", "updateOffset: nothing to do iff", "(span : Int)", x,
+				map[string]string{"span": "span"}, nil)
+		}
 		// breakers.go
 		const bs = "core/breaker/breakers.go"
 		e.shapeDef(s, bs, "GetBreaker", "getBreakerShape")
